@@ -575,7 +575,10 @@ func (s *srvConn) settle() string {
 
 func (s *srvConn) gauges() string {
 	rwin, _ := http2.VerifRecvWindow()
-	return fmt.Sprintf("strms=%d open=%d ring=%d held=%d rwin=%d body=%d", http2.VerifStrms.Load(), http2.VerifOpen.Load(), http2.VerifRing.Load(), http2.VerifHeld.Load(), rwin, http2.VerifBody.Load())
+	s.mu.Lock()
+	infl := s.inflight
+	s.mu.Unlock()
+	return fmt.Sprintf("strms=%d open=%d ring=%d held=%d rwin=%d body=%d infl=%d", http2.VerifStrms.Load(), http2.VerifOpen.Load(), http2.VerifRing.Load(), http2.VerifHeld.Load(), rwin, http2.VerifBody.Load(), infl)
 }
 
 func argInt(f []string, key string, def int) int {
